@@ -382,3 +382,41 @@ fn c15_injected_contradiction_is_a_conflict() {
     }
     println!("CASES c15_contradiction {cases}");
 }
+
+/// two towers of nested constructors equated at the top, with half of the evidence at the bottom of each: every
+/// nesting level needs its own round of the fixpoint before the bottoms meet and join
+#[test]
+fn c15_deep_towers_join_at_the_bottom() {
+    std::panic::set_hook(Box::new(|_| {}));
+    let mut cases = 0;
+    for depth in [4usize, 12, 24, 32] {
+        for shape in 0..2 {
+            let n = 2 * (depth + 1);
+            let mut js = vec![J::Eq(0, depth + 1)];
+            for i in 0..depth {
+                let (a, b) = (i, depth + 1 + i);
+                if shape == 0 { js.push(J::Is(a, T::Dyn(a + 1))); js.push(J::Is(b, T::Dyn(b + 1))); }
+                else { js.push(J::Is(a, T::Map(depth, a + 1))); js.push(J::Is(b, T::Map(2 * depth + 1, b + 1))); }   // keys: the bottom variables
+            }
+            js.push(J::Is(depth, T::Word(Some(64), WordUse::Numeric)));
+            js.push(J::Is(2 * depth + 1, T::Word(None, WordUse::SignedNumeric)));
+            // ground truth of every variable: level i of either tower
+            let mut g = vec![G::Any; n];
+            let mut t = G::Word(Some(64), WordUse::SignedNumeric);
+            for i in (0..=depth).rev() {
+                g[i] = t.clone();
+                g[depth + 1 + i] = t.clone();
+                t = if shape == 0 { G::Dyn(Box::new(t)) } else { G::Map(Box::new(G::Word(Some(64), WordUse::SignedNumeric)), Box::new(t)) };
+            }
+            match run(n, &js, false, BUDGET) {
+                Outcome::Done(r) => if let Some((v, e)) = first_mismatch(&g, &r) {
+                    witness("C15", "join.compatible_is_most_specific", format!("towers of depth {depth} ({}) equated at the top; int64 evidence split over the two bottoms", if shape == 0 { "dynamic arrays" } else { "mappings" }), e, format!("v{v} : {}", show_g(&g[v])));
+                },
+                Outcome::Diverged { .. } => witness("C15", "join.compatible_is_most_specific", format!("towers of depth {depth}"), "unify did not terminate".into(), "the true types".into()),
+                Outcome::Panicked(p) => witness("C15", "join.compatible_is_most_specific", format!("towers of depth {depth}"), format!("PANIC {}", &p[..p.len().min(160)]), "the true types".into()),
+            }
+            cases += 1;
+        }
+    }
+    println!("CASES c15_towers {cases}");
+}
